@@ -4,7 +4,7 @@ SPEC = {
     "props_module": "C10",
     "model_vo": "theories/C10/Model.vo",
     "bin": "c10",
-    "n": {"quick": 12, "thorough": 80},
+    "n": {"quick": 24, "thorough": 100},
     "rule": "engine c10: n worlds = random corpora over two text fields (7-word vocabulary: many tf / length ties), fast "
             "keyword / i64 / f64 fields single- and multi-valued with missing values (-0.0, 1e9, multiples of 0.1), 1-4 "
             "segments (a third of the batches repeats the previous one: exact score ties across segments), optional "
